@@ -387,10 +387,14 @@ func TestC11(t *testing.T) {
 	c.Sub("lcd-restarts", func(t *testing.T) {
 		var n int64
 		idx := 0
+		wxs, wys := []uint8{7, 166}, []uint8{0, 100}
+		if c.Env.Thorough() {
+			wxs, wys = []uint8{0, 7, 87, 166, 200}, []uint8{0, 1, 100, 143}
+		}
 		for _, lcdc := range []uint8{0xf3, 0xb3, 0xe7, 0xfb, 0x91, 0xa1} {
 			for _, line := range []int{1, 17, 100, 120, 140, 143} {
-				for _, wx := range []uint8{0, 7, 87, 166, 200} {
-					for _, wy := range []uint8{0, 1, 100, 143} {
+				for _, wx := range wxs {
+					for _, wy := range wys {
 						idx++
 						if !c.Env.Mine(idx) {
 							continue
@@ -417,7 +421,7 @@ func TestC11(t *testing.T) {
 			}
 		}
 		c.Bulk("lcd-restarts", n, n)
-		c.Exhaustive("6 LCDC values (window/objects on and off, both maps) x 6 restart lines x 5 WX x 4 WY: the LCD switched off at that line and on again twelve times, then two full frames")
+		c.Exhaustive("6 LCDC values (window/objects on and off, both maps) x 6 restart lines x WX {7,166} x WY {0,100} (thorough: 5 WX x 4 WY): the LCD switched off at that line and on again twelve times, then two full frames")
 	})
 
 	opGen := rapid.Custom(func(rt *rapid.T) c11Op {
